@@ -28,6 +28,7 @@ use crate::shadowfs;
 use crate::shadowfs::materialise;
 use crate::shadowfs::power_variants;
 use crate::shadowfs::Image;
+use crate::shadowfs::SFile;
 use crate::shadowfs::Shadow;
 use crate::shadowfs::Variant;
 use crate::trace::Ev;
@@ -226,6 +227,8 @@ pub struct CrashImage {
     pub kind: &'static str,
     pub desc: String,
     pub img: Image,
+    /// process-crash images with unsynced bytes: what a later power loss would still find
+    pub durable: Option<Image>,
 }
 
 /// Enumerate crash images of a recording. `budget` bounds the sampled power-loss images per
@@ -242,7 +245,8 @@ pub fn enumerate_images(rec: &Recorded, init: Shadow, sel: u64, per_point: usize
             // (1) process crash
             let img = sh.process_image(&rec.names);
             if seen.insert(image_hash(&img)) {
-                f(CrashImage { q, kind: "process", desc: "all completed calls kept".into(), img })?;
+                let durable = if sh.dirty_files().is_empty() { None } else { Some(sh.durable_image(&rec.names)) };
+                f(CrashImage { q, kind: "process", desc: "all completed calls kept".into(), img, durable })?;
             }
             // (2) inside the next write
             if q < n {
@@ -269,7 +273,7 @@ pub fn enumerate_images(rec: &Recorded, init: Shadow, sel: u64, per_point: usize
                         s2.apply(q, &Ev::Write { file: *file, off: *off, data: data[..k].to_vec(), tid: 0 });
                         let img = s2.process_image(&rec.names);
                         if seen.insert(image_hash(&img)) {
-                            f(CrashImage { q, kind: "process-in-write", desc: format!("first {k} of {len} bytes of the write in progress applied"), img })?;
+                            f(CrashImage { q, kind: "process-in-write", desc: format!("first {k} of {len} bytes of the write in progress applied"), img, durable: None })?;
                         }
                     }
                 }
@@ -279,7 +283,7 @@ pub fn enumerate_images(rec: &Recorded, init: Shadow, sel: u64, per_point: usize
             if !dirty.is_empty() {
                 let img = sh.durable_image(&rec.names);
                 if seen.insert(image_hash(&img)) {
-                    f(CrashImage { q, kind: "power", desc: "only synced bytes survive".into(), img })?;
+                    f(CrashImage { q, kind: "power", desc: "only synced bytes survive".into(), img, durable: None })?;
                 }
                 let vars: Vec<(usize, Vec<Variant>)> = dirty.iter().map(|i| (*i, power_variants(&sh.files[*i], exhaustive))).collect();
                 let total: usize = vars.iter().fold(1usize, |a, v| a.saturating_mul(v.1.len()));
@@ -292,7 +296,7 @@ pub fn enumerate_images(rec: &Recorded, init: Shadow, sel: u64, per_point: usize
                         desc.push_str(&format!("{}: {:?} (synced {} of {}); ", rec.names[*fi], v, sh.files[*fi].durable.len(), sh.files[*fi].content.len()));
                     }
                     if seen.insert(image_hash(&img)) {
-                        f(CrashImage { q, kind: "power", desc, img })?;
+                        f(CrashImage { q, kind: "power", desc, img, durable: None })?;
                     }
                     Ok(())
                 };
@@ -331,6 +335,53 @@ pub fn enumerate_images(rec: &Recorded, init: Shadow, sel: u64, per_point: usize
     }
     Ok(())
 }
+
+/// Trace the recovery of `img` itself and return the recording (for crash-during-recovery).
+///
+/// `durable` = what of each file had been synced when the image was taken (a process crash
+/// leaves unsynced bytes in the page cache: the recovering process sees them, a later power loss
+/// still loses them); `None` = everything in the image is durable (image taken after a power loss).
+pub fn record_recovery(img: &Image, durable: Option<&Image>, cfg: &CfgSpec, outer: &Recorded) -> Option<(Recorded, Shadow)> {
+    let dir = fresh_dir("rcv");
+    shadowfs::write_image(&dir, img).ok()?;
+    crate::trace::begin(&dir);
+    let res = Run::attach(&dir, cfg, Snapshot::default(), false);
+    if let Ok(mut run) = res {
+        run.finish();
+    }
+    let ctl = crate::trace::end();
+    remove_dir(&dir);
+    let mut init = Shadow::new(ctl.names.len());
+    for (id, name) in ctl.names.iter().enumerate() {
+        if let Some(d) = img.get(name) {
+            let dur = durable.and_then(|m| m.get(name)).unwrap_or(d);
+            init.files[id] = SFile { exists: true, content: d.clone(), durable: dur.clone(), ever_created: true, ..Default::default() };
+        }
+    }
+    // files of the image that recovery never touched keep their place too
+    let mut names = ctl.names.clone();
+    for (name, d) in img {
+        if !names.contains(name) {
+            names.push(name.clone());
+            let dur = durable.and_then(|m| m.get(name)).unwrap_or(d);
+            init.files.push(SFile { exists: true, content: d.clone(), durable: dur.clone(), ever_created: true, ..Default::default() });
+        }
+    }
+    let rec = Recorded {
+        trace: ctl.trace,
+        names,
+        model: outer.model.clone(),
+        flushes: vec![],
+        records_after_op: vec![],
+        classes: Default::default(),
+        excluded: 0,
+        faults_hit: 0,
+        hard_faults_hit: 0,
+        layout: None,
+    };
+    Some((rec, init))
+}
+
 
 pub fn describe_image(img: &Image) -> String {
     let mut s = String::new();
